@@ -252,8 +252,12 @@ class Histogram1D(ObjectWithBinning, HistogramBase):
             return self[index[0]]
         if isinstance(index, int):
             return self.bins[index], self.frequencies[index]
-        if isinstance(index, (list, np.ndarray)):
-            index_array = np.asarray(index)
+        if not isinstance(index, (slice, str)) and np.ndim(index) == 1:
+            # Any sequence of indices or flags (list, array, range, Series...)
+            index = np.asarray(index)
+            if index.size == 0 and index.dtype != bool:
+                index = index.astype(int)  # (An empty selection, not a mask)
+            index_array = index
             if index_array.dtype != bool and index_array.size > 0:
                 # Bins cannot change their order or repeat: take them in increasing order
                 index = np.unique(np.arange(self.bin_count)[index_array])
@@ -265,9 +269,12 @@ class Histogram1D(ObjectWithBinning, HistogramBase):
                     )
         elif isinstance(index, slice):
             keep_missed = self.keep_missed
-            # TODO: Fix this
-            if index.step:
+            if index.step is not None and index.step < 0:
                 raise IndexError("Cannot change the order of bins")
+            if index.step is not None and index.step > 1:
+                # Every n-th bin: a selection of separate bins like an index array
+                return self[np.arange(self.bin_count)[index]]
+            index = slice(index.start, index.stop)
             if index.step == 1 or index.step is None:
                 underflow = self.underflow
                 overflow = self.overflow
